@@ -392,6 +392,14 @@ MUTATIONS = [
     {'id': 'c05-revert-lumped-at-fibre-end-refused', 'props': ['C05'], 'tests': 'tests/test_science_utils.py tests/test_parser.py',
      'desc': 'revert of the fix: lumped loss positions compared in km with 1e-3 * length (a loss exactly at the end may pass)',
      'edits': [('gnpy/core/elements.py', "(z_lumped_losses * 1e3 < self.params.length)", "(z_lumped_losses < 1e-3 * self.params.length)")]},
+    {'id': 'c08-revert-spliced-raman-span-not-padded', 'props': ['C08'], 'tests': 'tests/test_network_functions.py tests/test_parser.py',
+     'desc': 'revert of the fix: padding skipped only when the last fibre of a spliced succession is the Raman fibre',
+     'edits': [('gnpy/core/network.py', """        if isinstance(fiber, elements.RamanFiber) \\
+                or any(isinstance(n, elements.RamanFiber) for n in prev_node_generator(network, fiber)):
+            continue
+""", """        if isinstance(fiber, elements.RamanFiber):
+            continue
+""")]},
     {'id': 'c11-revert-explicit-ispart', 'props': ['C11'], 'tests': 'tests/test_path_computation_functions.py tests/test_disjunction.py',
      'desc': 'revert of fix e50d35fe: explicit route returned without checking the listed nodes are crossed in order',
      'edits': [('gnpy/topology/request.py', "    if total_path is not None and ispart(nodes_list, total_path):",
